@@ -1,1 +1,4 @@
 -- modules of work area Persist (add imports here)
+import AM.Model.Snapshot
+import AM.Model.CrashFS
+import AM.Props.C11
